@@ -583,37 +583,39 @@ def check_finalise_unregisters(P, ctx, rule):
 
 
 def check_del_routes(P, ctx, rule='C06.del-routes'):
-    """del_by: a standard or root object is released through the collector (rem(current(GC), self) strikes its registry entry and
-    finalises it) on every path, never directly — a direct release leaves the entry registered and the next sweep or the teardown
-    finalises the object again; a raw object is released directly.  Decided per allocation method over the feasible paths."""
-    fn = P.fn('del_by')
-    g = P.cfg(fn)
-    ctx.fn(fn)
-    N = util.Norm(P, fn, expand_locals=True, inline=False)
-    for name in ('ALLOC_STANDARD', 'ALLOC_ROOT', 'ALLOC_RAW'):
-        env = {('enum', k): v for k, v in P.enums.items()}
-        env[('param', 1)] = P.enums.get(name)
-        bad = None
-        npaths = 0
-        for path in util.paths_under(g, N, env, P.enums):
-            if util.path_end(path)[0] not in ('ret', 'fall'):
-                continue
-            npaths += 1
-            rems = direct = 0
-            for ev in util.path_events(path):
-                if ev['t'] == 'call' and ev['name'] == 'rem' and ev['args'] and ir.top_nocast(ev['args'][0])[0] == 'call' and ir.callee_name(ir.top_nocast(ev['args'][0])) == 'current' \
-                        and N.canon(ev['args'][1]) == ('param', 0):
-                    rems += 1
-                if ev['t'] == 'call' and ev['name'] in ('dealloc', 'destruct') and ev['args'] and any(x == ('param', 0) for x in ir.walk(N.canon(ev['args'][0]))):
-                    direct = 1
-            want = (1, 0) if name != 'ALLOC_RAW' else (0, 1)
-            if (rems, direct) != want:
-                bad = bad or ('a path for %s %s (%s)' % (name, 'releases the object directly' if direct and name != 'ALLOC_RAW' else
-                                                         ('does not go through the collector' if name != 'ALLOC_RAW' else 'goes through the collector or does not release'),
-                                                         util.describe_path(g, path, 12)))
-        ctx.check(bad is None and npaths > 0, rule, 'del_by:' + name, site(fn),
+    """del / del_root release a standard or root object through the collector (rem(current(GC), self) strikes its registry entry and
+    finalises it), never directly — a direct release leaves the entry registered and the next sweep or the teardown finalises the
+    object again; del_raw releases directly (dealloc(destruct(self))).  The three entry points are evaluated (cint, through whatever
+    helper they share)."""
+    from . import cint
+    SELF_, GCTOK = 5000, 4300
+    for entry, name in (('del', 'ALLOC_STANDARD'), ('del_root', 'ALLOC_ROOT'), ('del_raw', 'ALLOC_RAW')):
+        fn = P.fn(entry)
+        ctx.fn(fn)
+        events = []
+
+        def call(nm, e, it, events=events):
+            if nm == 'current':
+                return GCTOK if ir.top_nocast(e[2][0]) == ('global', 'GC') else 4999
+            if nm == 'rem':
+                events.append(('rem', it.ev(e[2][0]), it.ev(e[2][1])))
+                return 0
+            if nm == 'destruct':
+                events.append(('destruct', it.ev(e[2][0])))
+                return it.ev(e[2][0])
+            if nm in ('dealloc', 'dealloc_raw', 'dealloc_root'):
+                events.append(('dealloc', it.ev(e[2][0])))
+                return 0
+            raise cint.NoEval('call %s' % nm)
+        r = cint.CInt(P, fn, atoms={('global', 'NULL'): 0}, call=call, recurse=True).run([SELF_])
+        want = [('rem', GCTOK, SELF_)] if name != 'ALLOC_RAW' else [('destruct', SELF_), ('dealloc', SELF_)]
+        if r[0] == 'stuck':
+            ctx.undecided(rule, 'del_by:' + name, site(fn), '%s leaves the evaluated fragment: %s' % (entry, r[1]))
+            continue
+        ok = r[0] == 'ret' and events == want
+        ctx.check(ok, rule, 'del_by:' + name, site(fn),
                   '%s objects are released %s on every path' % (name, 'through rem(current(GC), self) only' if name != 'ALLOC_RAW' else 'directly (dealloc(destruct(self)))'),
-                  [bad] if bad else None)
+                  ['%s does: %s' % (entry, ', '.join('%s%s' % (e_[0], e_[1:]) for e_ in events) or 'nothing')] if not ok else None)
     ctx.floor(rule, 3)
 
 
